@@ -309,6 +309,8 @@ class ProgGen(object):
             return self.atcmd()
         if f.get("boost") and r.random() < f["boost"]:
             k = r.choice([0.955, 0.965])     # G28 mid-program / G92 X/Y/Z
+        if f.get("p_retmove") and not self.is_retracted() and r.random() < f["p_retmove"]:
+            k = 0.945                        # retraction combined with a move / z-hop
         if k < 0.28:
             if self.is_retracted():
                 self.unretract()
@@ -383,7 +385,11 @@ class ProgGen(object):
             x, y = self.pt((r.random() < pin) if self.regs else None)
             self.pre = (self.eword(self.e)[0], self.e, self.erel(), self.unit)
             self.retracted = 1.016
-            self.move(x=x, y=y, de=-1.016)
+            if r.random() < 0.3 and f.get("zmoves", True):
+                # ... or with the z-hop: "G1 Z0.8 E-1.016" (a move, not an E-only retraction)
+                self.move(z=round(self.z + r.choice([0.2, 0.4, 0.6]), 2), de=-1.016)
+            else:
+                self.move(x=x, y=y, de=-1.016)
         elif k < 0.96 and f.get("g28mid", False) and not self.believed_open() and not self.is_retracted():
             ax = r.choice(["", "", " X", " Y", " X Y", " Z"])
             self.emit("G28" + ax)
